@@ -89,23 +89,39 @@ impl Wake for ParkWaker {
 thread_local! {
     /// Number of times block_on on this thread returned Pending from a poll (i.e. had to park)
     pub static PARKS: Cell<u64> = const { Cell::new(0) };
+    /// Number of block_on calls made on this thread (selects the waker discipline of the next one)
+    pub static BLOCK_ONS: Cell<u64> = const { Cell::new(0) };
 }
 
 /// Polls `fut` to completion on the calling thread, parking between polls.
 /// `on_pending` is called after every poll that returned Pending (before parking).
 pub fn block_on_with<F: Future + ?Sized>(mut fut: Pin<&mut F>, mut on_pending: impl FnMut(u32)) -> F::Output {
-    let pw      = Arc::new(ParkWaker { thread: thread::current(), woken: AtomicBool::new(false), wakes: AtomicU64::new(0) });
-    let waker   = Waker::from(Arc::clone(&pw));
-    let mut cx  = Context::from_waker(&waker);
+    // Every third call on a thread awaits like a task whose waker changes from poll to poll and that is also polled for other
+    // reasons: each poll supplies a fresh waker, a Pending poll is followed at once by a second poll (again with a new waker), and
+    // only a wake of the LATEST waker counts - a future that keeps calling an older one leaves this thread asleep.
+    let changing = BLOCK_ONS.with(|c| { let v = c.get(); c.set(v + 1); v % 3 == 2 });
+    let fresh = || Arc::new(ParkWaker { thread: thread::current(), woken: AtomicBool::new(false), wakes: AtomicU64::new(0) });
+    let mut pw  = fresh();
     let mut n   = 0u32;
     loop {
-        if let Poll::Ready(v) = fut.as_mut().poll(&mut cx) { return v; }
+        {
+            let waker   = Waker::from(Arc::clone(&pw));
+            let mut cx  = Context::from_waker(&waker);
+            if let Poll::Ready(v) = fut.as_mut().poll(&mut cx) { return v; }
+        }
+        if changing {
+            pw = fresh();
+            let waker   = Waker::from(Arc::clone(&pw));
+            let mut cx  = Context::from_waker(&waker);
+            if let Poll::Ready(v) = fut.as_mut().poll(&mut cx) { return v; }
+        }
         n += 1;
         on_pending(n);
         PARKS.with(|p| p.set(p.get() + 1));
         while !pw.woken.swap(false, Ordering::SeqCst) {
             thread::park();
         }
+        if changing { pw = fresh(); }
     }
 }
 
